@@ -752,9 +752,16 @@ def gen_c06(rng):
         elif r < 0.65:
             key, tag = rng.choice([("Backspace", "bs"), ("Delete", "del"), ("C-h", "bs")])
             cmds.append(Cmd([key], tag))
-        elif r < 0.85:
+        elif r < 0.80:
             key, tag = rng.choice([("C-b", "left"), ("C-f", "right"), ("C-a", "home"), ("C-e", "end"), ("M-b", "bword"), ("M-f", "fword")])
             cmds.append(Cmd([key], tag))
+        elif r < 0.87:
+            # commands the main loop handles before command::execute: quoted insert, an aborted search
+            if rng.random() < 0.5:
+                c = rng.choice(["x", "é"])
+                cmds.append(Cmd([rng.choice(["C-v", "C-q"]), c], "ins", c=ord(c), n=1))
+            else:
+                cmds += [Cmd(["C-r"], "search"), Cmd(["C-g"], "search_abort")]
         else:
             c = rng.choice(["a", " ", ",", "é"])
             cmds.append(Cmd([c], "ins", c=ord(c), n=1))
@@ -769,7 +776,7 @@ def c06_oracle_cases(tier, seed):
         cmds = gen_c06(rng) + [Cmd(["Enter"], "enter")]
         if rng.random() < 0.3:       # the ring survives the read
             cmds += [Cmd(["C-y"], "yank")] + [Cmd(["M-y"], "yankpop")] * rng.randint(0, 2) + [Cmd(["Enter"], "enter")]
-        cases.append(script_case(cmds, mode="emacs", reads=3, timeout=rng.choice(["none", 0]), prompt="> "))
+        cases.append(script_case(cmds, mode="emacs", reads=3, timeout=rng.choice(["none", 0]), prompt="> ", history=["zq", "qz"]))
     return cases
 
 
@@ -1630,7 +1637,8 @@ def c02_cases(tier, seed):
     for _ in range(n):
         mode = rng.choice(["emacs", "emacs", "vi"])
         cols = rng.choice([4, 5, 8, 10, 12, 20, 20, 40, 80])
-        prompt = rng.choice(["", "> ", "日> ", ">> ", "\x1b[1;32m>>\x1b[0m "])
+        prompt = rng.choice(["", "> ", "日> ", ">> ", "\x1b[1;32m>>\x1b[0m ", "\x1b[91m>>\x1b[39m ", "\x1b[38;5;196m>\x1b[0m ",
+                             "\x1b[4;7;45m$\x1b[m \x1b[38;2;10;60;89mx\x1b[0m "])
         hist = [rng.choice(["one", "two words", "é日本", "l1\nl2\nl3", "x" * 25, "日" * 9]) for _ in range(rng.choice([0, 1, 2]))]
         hints = ["abc def", "日本語", "x" * 30, "a b c d e f g h i j k"] if rng.random() < 0.3 else None
         cmds = gen_c02(rng, mode)
